@@ -70,22 +70,7 @@ fn accessor_model(w: u32) -> Vec<(&'static str, String)> {
                 ("filter", format!("{:#x}", w)),
             ]
         }
-        None => vec![
-            ("get_card_rank", "None".into()),
-            ("get_card_suit", "None".into()),
-            ("get_rank_bit", "0x0".into()),
-            ("get_rank_flag", "0x0".into()),
-            ("get_rank_prime", "0".into()),
-            ("get_suit_bit", "0x0".into()),
-            ("get_suit_flag", "0x0".into()),
-            ("get_rank_char", "_".into()),
-            ("get_suit_char", "_".into()),
-            ("get_suit_letter", "_".into()),
-            ("is_blank", "true".into()),
-            ("as_u32", "0x0".into()),
-            ("binary_signature(get_card_suit)", "0x0".into()),
-            ("filter", "0x0".into()),
-        ],
+        None => Vec::new(),
     }
 }
 
@@ -139,8 +124,15 @@ pub fn judge(case: &Case) -> Verdict {
         }
         "accessors" => {
             let w = case.words.first().copied().unwrap_or(1) as u32;
-            if w != 0 && !is_card_word(w) {
-                return Verdict::NotJudged("accessors are specified on the 52 cards and blank".into());
+            if w == 0 {
+                // blank: the statement only says that it is blank and that the filter maps it to blank
+                return match guard(|| (0u32.is_blank(), CardNumber::filter(0))) {
+                    Ok((true, 0)) => Verdict::Holds,
+                    other => Verdict::Violated { class: "accessor:blank".into(), expected: "is_blank() and filter(0) == 0".into(), observed: format!("{:?}", other) },
+                };
+            }
+            if !is_card_word(w) {
+                return Verdict::NotJudged("accessors are specified on the 52 cards".into());
             }
             let exp = accessor_model(w);
             match guard(|| accessor_report(w)) {
